@@ -927,6 +927,40 @@ func init() {
 			emitStrs("checkedHelperShape", "`arithmaticHelperiChecked`: the assignments to `final` and the refusal branch of the run-time loop", l, fd != nil)
 		}
 
+		// ---- bucket / bucketrange: the constant size is the divisor of `val / bucketSize`
+		{
+			const common = "pkg/expressions/stdlib/funcsCommon.go"
+			var divs []string
+			okAll := true
+			for _, p := range [][2]string{{"kfBucket", "bucket"}, {"kfBucketRange", "bucketRange"}} {
+				fd := c.Func(common, p[0])
+				c.Fingerprint(common, p[0])
+				t := newC08tr(c, []string{"bucketSize"}, nil)
+				res := "false"
+				if fd == nil || fd.Body == nil {
+					t.fail("function " + p[0] + " not found")
+					okAll = false
+				} else {
+					is := c08FindIf(fd.Body.List, func(is *ast.IfStmt) bool { return c.c08Returns(is, "stageArgError(ErrValue") })
+					if is == nil || is.Init != nil || is.Else != nil {
+						t.fail("no `if … { return stageArgError(ErrValue, …) }` in " + p[0])
+					} else {
+						res = t.cond(is.Cond)
+					}
+					for _, st := range c08Closure(fd) {
+						ast.Inspect(st, func(n ast.Node) bool {
+							if be, ok := n.(*ast.BinaryExpr); ok && (be.Op == token.QUO || be.Op == token.REM) {
+								divs = append(divs, p[0]+": "+c.Print(be))
+							}
+							return true
+						})
+					}
+				}
+				emitDef(p[1]+"SizeGuard", "`"+p[0]+"`: the condition under which the builder rejects its constant bucket size", []string{"bucketSize"}, "", "Bool", t, res)
+			}
+			emitStrs("bucketDivisions", "`kfBucket` / `kfBucketRange`: every `/` and `%` of the run-time closures", divs, okAll && len(divs) > 0)
+		}
+
 		// ---- GetMatch implementations: guard chains
 		type chainSpec struct {
 			lean, rel, fn string
